@@ -33,6 +33,10 @@ type vfTask struct {
 
 const vfFar = time.Hour
 
+// vfNever: the largest deadline an application can express relative to now ("never"): about 292 years ahead, beyond
+// the range of UnixNano. It must not run within the horizon and must not delay anything nearer.
+const vfNever = time.Duration(1<<63-1) - 24*time.Hour
+
 type vfC17Scenario struct {
 	name string
 	subs [][]vfPut
@@ -58,6 +62,9 @@ func vfC17Scenarios(thorough bool) []vfC17Scenario {
 		{"2x1 near / arrival at expiry", [][]vfPut{{p(0, 5*ms)}, {p(5*ms, 5*ms)}}},
 		{"2x1 near / past at expiry", [][]vfPut{{p(0, 5*ms)}, {p(5*ms, -1*ms)}}},
 		{"2x2 crossing", [][]vfPut{{p(0, 10*ms), p(0, 5*ms)}, {p(0, 5*ms), p(0, vfFar)}}},
+		{"1x2 never,near", [][]vfPut{{p(0, vfNever), p(0, 5*ms)}}},
+		{"1x3 near,never,far", [][]vfPut{{p(0, 5*ms), p(0, vfNever), p(0, vfFar)}}},
+		{"2x1 never,near", [][]vfPut{{p(0, vfNever)}, {p(0, 5*ms)}}},
 	}
 	if thorough {
 		sc = append(sc,
@@ -126,6 +133,10 @@ func vfC17Run(sc vfC17Scenario, parallel int, async bool, early int8) explore.Ru
 			vrt.Idle(2 * time.Hour)
 			for _, t := range tasks {
 				switch {
+				case t.deadline > 1000*time.Hour:
+					if len(t.runs) != 0 {
+						bad("C17:task-ran-early", "task %s with a deadline centuries ahead ran at %s", t.id, t.runs[0])
+					}
 				case len(t.runs) != 1:
 					bad("C17:task-run-count-at-end", "task %s ran %d times by the end", t.id, len(t.runs))
 				case t.runs[0] < t.deadline:
